@@ -1,9 +1,10 @@
 (* C04 — Every accepted value leaves through OnExit exactly once.  Statements only.
    Proved here for every schedule in which every Set call carries its own non-zero value:
-   at most once, never while retrievable.  See the end of the file for what is not proved (partial). *)
+   at most once, never while retrievable (any schedule); exactly once / refused values silent / OnEvict and OnReject
+   followed by OnExit (schedules without Close and without primary-hash collisions: the two known findings). *)
 From stdpp Require Import gmap.
 From Ristretto Require Import Base.Word Cache.Policy Cache.Store Cache.Machine Cache.MachineProofs Cache.SyncProofs
-  Cache.OwnProofs.
+  Cache.OwnProofs Cache.ProtoProofs Cache.ConsProofs.
 Local Open Scope nat_scope.
 
 (* OnExit is delivered at most once per value ... *)
@@ -38,12 +39,53 @@ Proof.
   pose proof (occ_le_one c maxCost bdur now0 mon sched v Hv Hnd) as Ho. fold s in Ho. unfold occ in Ho. lia.
 Qed.
 
-(* The conservation half of the property (a value whose Set returned true is delivered to OnExit no later than the
-   next Clear/Close; refused values are silent; OnEvict/OnReject at most once and followed by OnExit) is NOT proved
-   in Coq in this development: it is false of the faithful machine for colliding primary hashes and for a Set that
-   overlaps Close (known findings, see KNOWN_FINDINGS.txt), and the guarded statement needs an exact-count
-   strengthening of [occ] that has not been done.  Those clauses are checked by the oracle of the C04 check on the
-   implementation's callbacks (lib/props/c04.py). *)
+(* Conservation.  For every schedule without Close in which every call names its key with one conflict hash per key
+   hash (no primary-hash collisions) and every Set carries its own value:
+     - once Set(v) has returned true, v is held in exactly one place (a map entry, a buffered or in-flight new-item
+       record, a pending OnExit) or has been passed to OnExit exactly once, in every later state;
+     - once Set(v) has returned false, v is nowhere, and it has not been and will not be passed to OnExit.
+   [occ s v] counts the map entries, buffered new items, Set program counters, the applier's item, pending OnExit
+   callbacks and delivered OnExit events that carry v. *)
+Theorem C04_conservation : forall kc c maxCost bdur now0 mon sched v,
+  v <> 0%N -> Forall (lab_c kc) sched -> List.NoDup (set_vals sched) ->
+  let s := mrun c (init_state maxCost bdur now0 mon) sched in
+  (1 <= accepted (s_log s) v -> occ s v = 1 /\ refused (s_log s) v = 0) /\
+  (1 <= refused (s_log s) v -> occ s v = 0).
+Proof. exact conservation. Qed.
+
+(* ... hence, when the cache is empty and quiet — as it is when Clear has returned (C15_clear_returns) and nothing
+   else is running — every value whose Set returned true has been passed to OnExit exactly once. *)
+Theorem C04_released_when_quiet : forall kc c maxCost bdur now0 mon sched v,
+  v <> 0%N -> Forall (lab_c kc) sched -> List.NoDup (set_vals sched) ->
+  let s := mrun c (init_state maxCost bdur now0 mon) sched in
+  1 <= accepted (s_log s) v ->
+  s_store s = ∅ -> s_buf s = [] -> s_apc s = AIdle -> s_apend s = [] ->
+  (forall tid t, s_threads s !! tid = Some t -> t_pc t = CIdle /\ t_pend t = []) ->
+  cnt_log (s_log s) v = 1.
+Proof. exact released_when_quiet. Qed.
+
+(* OnEvict and OnReject are always followed, as the very next callback of the same goroutine, by OnExit of the same
+   value (so they fire at most once per value, as OnExit does) — every schedule. *)
+Theorem C04_evict_then_exit : forall c maxCost bdur now0 mon sched tid o k cf v cost rest s',
+  let s := mrun c (init_state maxCost bdur now0 mon) sched in
+  s_panic s = false -> t_op (get_thread s tid) = Some o ->
+  (t_pend (get_thread s tid) = CbEvict k cf v cost :: rest \/ t_pend (get_thread s tid) = CbReject k cf v cost :: rest) ->
+  mstep c s (LStep tid) = Some s' -> exists rest', t_pend (get_thread s' tid) = CbExit v :: rest'.
+Proof.
+  intros c maxCost bdur now0 mon sched tid o k cf v cost rest s' s. apply evict_then_exit. apply reachable_pair.
+Qed.
+Theorem C04_evict_then_exit_applier : forall c maxCost bdur now0 mon sched k cf v cost rest s' orders,
+  let s := mrun c (init_state maxCost bdur now0 mon) sched in
+  s_panic s = false ->
+  (s_apend s = CbEvict k cf v cost :: rest \/ s_apend s = CbReject k cf v cost :: rest) ->
+  mstep c s (LApp false orders) = Some s' -> exists rest', s_apend s' = CbExit v :: rest'.
+Proof.
+  intros c maxCost bdur now0 mon sched k cf v cost rest s' orders s. apply evict_then_exit_app. apply reachable_pair.
+Qed.
+
+(* Not provable, because false of the code (known findings, replayed on every run): with two live keys sharing the
+   primary hash a value can vanish silently (hence [label_kc]), and a Set that overlaps Close is never released
+   (hence [label_noclose]). *)
 Definition c04_cfg : cfg :=
   {| c_cap := 4; c_bdur := 5; c_ignore_internal := true; c_item_size := 56; c_should := fun _ _ => true;
      c_costfn := None |}.
@@ -58,3 +100,4 @@ Proof. split; [repeat constructor; simpl; intuition discriminate|]. vm_compute. 
 
 Print Assumptions C04_at_most_once.
 Print Assumptions C04_never_while_retrievable.
+Print Assumptions C04_conservation.
